@@ -147,7 +147,8 @@ class Reader:
 
     def read(self, n=None):
         self.log.append(n)
-        if n is None or n < 0:
+        if n is None or n < 0 or n >= len(self.body):
+            # (compared, not sliced: slicing by a symbolic int would make the solver enumerate its values)
             r, self.body = self.body, b''
         else:
             r, self.body = self.body[:n], self.body[n:]
